@@ -43,11 +43,8 @@ func ruleLockField(c *chk.Ctx, owner string, fields ...*types.Var) {
 				c.Pass("LOCK.field", f, name, fa.Pos(), "accessed with %s held", lock)
 				return
 			}
-			_, fresh := ir.NormCell(fa.X).(*ssa.Alloc)
-			if !fresh {
-				// a private helper called from the constructor only, on the value being built
-				_, fresh = c.P.Canon(fa.X).(*ssa.Alloc)
-			}
+			// (or a private helper called from the constructor only, on the value being built)
+			fresh := freshOwner(c, fa.X)
 			if fresh {
 				c.Exists("LOCK.field", f, name, fa.Pos(), "constructor: the owner is freshly allocated and has not escaped")
 				return
